@@ -68,7 +68,7 @@ func (c *CopyCommand) Parse(fs *flag.FlagSet, args []string) error {
 	if c.ArchiveInfoList == nil {
 		return newRequiredOptionError(fs, "retentions")
 	}
-	if c.From > c.Until {
+	if c.Until != 0 && c.From > c.Until {
 		return errFromIsAfterUntil
 	}
 
